@@ -59,6 +59,11 @@ pub enum IdForm {
     PercentHyphen,
     /// path only: an extra segment after the id
     ExtraSegment,
+    /// path only: a percent-encoded control byte or other byte no id contains (%0A, %0D, %00,
+    /// %7F, %20, %C3%A9), alone, inside, or after a complete id
+    PercentOdd(u8),
+    /// path only: several thousand characters
+    Long,
 }
 
 #[derive(Clone, Copy, Debug, Serialize, Deserialize, PartialEq, Eq, Hash)]
@@ -101,6 +106,9 @@ pub struct RawReq {
     /// make the request as HTTP/1.0 (what many reverse proxies speak to their upstreams)
     #[serde(default)]
     pub http10: bool,
+    /// index of a set of protocol-irrelevant request headers (0 = none)
+    #[serde(default)]
+    pub extra: u8,
 }
 
 #[derive(Clone, Copy, Debug, PartialEq, Eq, Hash)]
@@ -146,6 +154,16 @@ fn id_text(u: Uuid, f: IdForm, in_path: bool) -> Option<Vec<u8>> {
             b
         }
         IdForm::PercentHyphen => canon.replace('-', "%2D").into_bytes(),
+        IdForm::PercentOdd(k) => {
+            let odd = ["%0A", "%0D", "%00", "%7F", "%20", "%C3%A9", "%09", "%1B"][(k as usize / 3) % 8];
+            match k % 3 {
+                0 => odd.to_string(),
+                1 => format!("{}{odd}{}", &canon[..18], &canon[18..]),
+                _ => format!("{canon}{odd}"),
+            }
+            .into_bytes()
+        }
+        IdForm::Long => canon.repeat(120).into_bytes(),
     })
 }
 
@@ -284,6 +302,7 @@ pub fn build(r: &RawReq, client: Uuid, other: Uuid, id: Uuid) -> Built {
     if r.http10 {
         headers.push((crate::driver::VERSION_PSEUDO_HEADER.into(), b"1.0".to_vec()));
     }
+    headers.extend(crate::driver::extra_header_set(r.extra));
     if endpoint.is_some() {
         let c = id_form_class(r.cid);
         if c == Expect::Refuse {
@@ -335,6 +354,8 @@ fn idform_path() -> impl Strategy<Value = IdForm> {
         1 => Just(IdForm::Empty),
         1 => Just(IdForm::PercentHyphen),
         1 => Just(IdForm::ExtraSegment),
+        2 => (0u8..24).prop_map(IdForm::PercentOdd),
+        1 => Just(IdForm::Long),
     ]
 }
 
@@ -404,7 +425,7 @@ pub fn rawreq(n: u8) -> impl Strategy<Value = RawReq> {
         2 => (0u8..10).prop_map(Route::NearMiss),
         1 => (0u8..4).prop_map(Route::TrailingSlash),
     ];
-    (route, 0u8..100, 0..n, idform_header(), any_idref(n), idform_path(), ctform(), bodyform(), (any::<bool>(), prop::bool::weighted(0.15))).prop_map(|(route, m, client, cid, idref, pid, ct, body, (announce_len, http10))| {
+    (route, 0u8..100, 0..n, idform_header(), any_idref(n), idform_path(), ctform(), bodyform(), (any::<bool>(), prop::bool::weighted(0.15), prop_oneof![2 => Just(0u8), 1 => 1u8..crate::driver::N_EXTRA_HEADER_SETS])).prop_map(|(route, m, client, cid, idref, pid, ct, body, (announce_len, http10, extra))| {
         // the right method most of the time
         let method = if m < 72 {
             match route {
@@ -415,7 +436,7 @@ pub fn rawreq(n: u8) -> impl Strategy<Value = RawReq> {
             m % 7
         };
         // an own-latest parent most of the time for writes by construction of any_idref
-        RawReq { route, method, client, cid, idref, pid, ct, body, announce_len, http10 }
+        RawReq { route, method, client, cid, idref, pid, ct, body, announce_len, http10, extra }
     })
 }
 
@@ -475,6 +496,25 @@ fn c20_check(what: &str, req: &HttpReq, r: &HttpResp, st: &mut Stats) -> CheckRe
 enum Mode {
     C15,
     C20,
+    /// only: whatever is not answered with a success, and every read, leaves the state untouched
+    C18,
+}
+
+/// Sub-run of the C18 check: the request grammar (refusals of every kind, reads, conflicts)
+/// against servers holding state, with the full dump compared around every request.
+pub fn c18_raw_subrun(rep: &mut Report, tier: Tier, seed: u64) {
+    let r = engine::replay_dir::<RCase, _>("C18", "raw", |c, st| check_raw(c, Mode::C18, st));
+    rep.absorb("replay-tier-raw", r);
+    if rep.failed() {
+        return;
+    }
+    let (mp, mr) = (tier.pick(14, 30), tier.pick(14, 40));
+    let r = engine::explore("C18", "raw", seed, tier.pick(4000, 40_000), || rcase(mp, mr), |c, st| check_raw(c, Mode::C18, st));
+    rep.absorb("request-grammar-refusals-and-reads", r);
+}
+
+pub fn c18_raw_replay(case_json: &Value, st: &mut Stats) -> CheckResult {
+    check_raw(&serde_json::from_value(case_json.clone()).map_err(|e| Fail::Inconclusive(format!("bad replay file: {e}")))?, Mode::C18, st)
 }
 
 /// Entry for the libFuzzer target.
@@ -529,7 +569,7 @@ fn check_raw(rc: &RCase, mode: Mode, st: &mut Stats) -> CheckResult {
                 }
             }
         });
-        let before = if mode == Mode::C15 { Some(h.dump()?) } else { None };
+        let before = if mode == Mode::C15 || mode == Mode::C18 { Some(h.dump()?) } else { None };
         let meta_before = if b.endpoint == Some(Route::AddSnapshot) { Some(h.meta(client)?) } else { None };
         let resp = h.drv.http_call(b.req.clone());
         if mode == Mode::C20 {
@@ -552,6 +592,20 @@ fn check_raw(rc: &RCase, mode: Mode, st: &mut Stats) -> CheckResult {
                 None => Ok(None),
             }
         };
+        if mode == Mode::C18 {
+            st.check();
+            let success = (200..300).contains(&resp.status);
+            let read = matches!(b.req.method.as_str(), "GET" | "HEAD" | "OPTIONS");
+            if !success || read {
+                if let Some(d) = unchanged(&h)? {
+                    return v(format!("{what}: answered {} ({}), but stored state changed: {d}", resp.status, if success { "a read" } else { "not a success" }));
+                }
+                st.label(&format!("c18:raw:{}:{}", if read { "read" } else { "write-not-served" }, resp.status));
+                if holders >= 1 {
+                    st.nontrivial(&("c18-raw", r.route, r.method % 7, resp.status, b.reasons.clone(), holders.min(2)));
+                }
+            }
+        }
         // has the request been served as its canonical form?  then the model has to follow
         let served = b.endpoint.is_some() && Some(resp.status) == pred_status && matches!(b.expect, Expect::Serve | Expect::Either);
         match b.expect {
